@@ -67,6 +67,9 @@ func genDec(t *rapid.T) core.Dec {
 var alphabet = []string{"0", "1", "5", "9", "00", ".", "e", "E", "+", "-", "inf", "Inf", "INFINITY", "infinity", "nan", "NaN", "snan", "sNaN",
 	"_", " ", "\x00", "x", "İ", "ı", "K", "ſ", "١", "１", "\t", "\n", ",", "0x", "n", "i", "in", "na", "s", "ity", "1e", "e5", ".5", "5."}
 
+var words = []string{"null", "NULL", "Null", "nil", "<nil>", "none", "None", "undefined", "true", "false", "NaN()", "nan(1)", "+", "-", ".", "e", "E1", "-.", "+.e1",
+	"\"1\"", "'1'", "1f", "1d", "1L", "0x10", "0b1", "0o7", "1_000", "1,000", "1 000", " 1", "1 ", "1\n", "\ufeff1", "１", "∞", "-∞", "+Inf", "+infinity", "infinit", "infinityy", "in", "na", "snaN1x", "qnan", "1e", "1e+", "1e-", "1ee1", "1e1e1", "1.2.3", "..1", "1..", "--1", "+-1", "-+1", "++1"}
+
 func genExponent(t *rapid.T) string {
 	var e string
 	switch gen.Pick(t, 6, "ek") {
@@ -229,6 +232,12 @@ func genCase(t *rapid.T) Case {
 			c.S = mutate(t, grammatical(t))
 		default:
 			c.Src = "random"
+			if gen.Pick(t, 4, "word") == 0 {
+				// whole words that other decoders treat as "no value" or as a number, and that a
+				// convenience shortcut in one entry point might let through
+				c.S = words[gen.Pick(t, len(words), "wordk")]
+				break
+			}
 			n := rapid.IntRange(0, 6).Draw(t, "ntok")
 			for i := 0; i < n; i++ {
 				c.S += alphabet[gen.Pick(t, len(alphabet), "rtok")]
